@@ -493,7 +493,8 @@ def ir_data_default(p):
        ('value', v)    the IR gives the explicit default v: a scalar or None, or a back-tick quoted literal display (list /
                        tuple / dict of data) - of the declared type
        ('odd', why)    an explicit default the run clauses do not speak about although it is data of the declared type
-                       (reported shapes: the empty and the one-element sequence)"""
+                       (reported shapes: the empty and the one-element sequence; a sequence of two or more under a declared
+                       type that mentions List: the option is registered with action='append' and a str default)"""
     if "default" not in p:
         return None
     d = p["default"]
@@ -521,6 +522,8 @@ def ir_data_default(p):
         return ("out", "undeclared-or-opaque-type")
     if isinstance(v, (list, tuple)) and len(v) < 2:
         return ("odd", "sequence-of-%d" % len(v))
+    if isinstance(v, (list, tuple)) and "List" in ast.dump(ast.parse(p["typ"])):
+        return ("odd", "sequence-under-List")
     return ("value", v)
 
 
